@@ -200,6 +200,18 @@ class SetOf(ArrayType):
                                     Tag.SET,
                                     element_type)
 
+    def encode_content(self, data, values=None):
+        # The encodings of the elements in ascending order (X.690
+        # 11.6).
+        encoded_elements = []
+
+        for entry in data:
+            encoded_element = bytearray()
+            self.element_type.encode(entry, encoded_element)
+            encoded_elements.append(bytes(encoded_element))
+
+        return bytearray(b''.join(sorted(encoded_elements)))
+
 
 class UTF8String(StringType):
 
